@@ -396,6 +396,12 @@ class PrinterFacts:
                 if nm == "operator()" and "Missing_overrider" in json.dumps(f)[:600]:
                     out.append(("refuse",))
                     return
+                # a call of another member function of the printer that has a body in this file (a helper a handler
+                # was split into): its effects are the handler's effects
+                md = f.get("referencedMemberDecl")
+                if md in self.funcs and nm not in ("visit", "accept") and strip(kids(f)[0]).get("kind") == "CXXThisExpr":
+                    out.append(("call", md, [self.path_of(a, env) for a in args]))
+                    return
             for c in kids(e):
                 self._expr(c, env, out)
             return
